@@ -10,6 +10,9 @@
 //   - rewrites the type expressions sync.Mutex, sync.RWMutex, sync.Once, sync.Pool and
 //     sync.WaitGroup to their simrt equivalents;
 //   - rewrites `go f(x)` to `simrt.Go(func() { f(x) })`;
+//   - rewrites `range m` where m has map type (decided with go/types) to
+//     `range simrt.MapRange(m)`, so that map iteration order is owned by the simulator
+//     instead of the Go runtime's unseedable randomisation;
 //   - adds the simrt import and a blank use.
 //
 // Only the standard library is used.
@@ -19,8 +22,10 @@ import (
 	"encoding/json"
 	"fmt"
 	"go/ast"
+	"go/importer"
 	"go/parser"
 	"go/token"
+	"go/types"
 	"io/fs"
 	"os"
 	"path/filepath"
@@ -76,6 +81,7 @@ func main() {
 		fatal(err)
 	}
 	sort.Strings(files)
+	findMapRanges(root, files)
 	for _, f := range files {
 		if err := instrumentFile(root, f); err != nil {
 			fatal(fmt.Errorf("%s: %w", f, err))
@@ -106,7 +112,7 @@ func main() {
 	if err := os.WriteFile(sitesOut, b, 0o644); err != nil {
 		fatal(err)
 	}
-	fmt.Printf("instrumented %d files, %d yield sites\n", len(files), len(sites)-1)
+	fmt.Printf("instrumented %d files, %d yield sites, %d map ranges put under the simulator (%s)\n", len(files), len(sites)-1, nMapRanges, typeCheckNote)
 }
 
 func fatal(err error) {
@@ -178,6 +184,12 @@ func instrumentFile(root, path string) error {
 			// go f(x)  ->  simrt.Go(func() { f(x) })
 			add(off(x.Go), 2, "simrt.Go(func() {")
 			add(off(x.End()), 0, " })")
+		case *ast.RangeStmt:
+			if mapRangeAt[path][off(x.X.Pos())] {
+				add(off(x.X.Pos()), 0, "simrt.MapRange(")
+				add(off(x.X.End()), 0, ")")
+				nMapRanges++
+			}
 		case *ast.SelectorExpr:
 			if id, ok := x.X.(*ast.Ident); ok && syncName != "" && id.Name == syncName && id.Obj == nil && simTypes[x.Sel.Name] {
 				add(off(id.Pos()), len(id.Name), "simrt")
@@ -230,4 +242,188 @@ func typeString(e ast.Expr) string {
 		return typeString(x.X)
 	}
 	return "?"
+}
+
+// ---------------------------------------------------------------- map ranges (go/types)
+
+// mapRangeAt[file][offset of the range expression] is true when that expression has map type.
+var mapRangeAt = map[string]map[int]bool{}
+var nMapRanges int
+var typeCheckNote = "no range statements"
+
+type modImporter struct {
+	fset     *token.FileSet
+	std      types.Importer
+	modPath  string
+	root     string
+	byDir    map[string][]string // package dir -> files
+	done     map[string]*types.Package
+	errs     int
+	requires map[string]string
+}
+
+func (m *modImporter) Import(path string) (*types.Package, error) {
+	if path == m.modPath || strings.HasPrefix(path, m.modPath+"/") {
+		dir := filepath.Join(m.root, strings.TrimPrefix(strings.TrimPrefix(path, m.modPath), "/"))
+		return m.check(dir, path)
+	}
+	if first, _, _ := strings.Cut(path, "/"); strings.Contains(first, ".") {
+		// a third-party module: type-check its sources from the module cache
+		if dir := m.moduleDir(path); dir != "" {
+			if _, ok := m.byDir[dir]; !ok {
+				ents, _ := os.ReadDir(dir)
+				for _, e := range ents {
+					if n := e.Name(); strings.HasSuffix(n, ".go") && !strings.HasSuffix(n, "_test.go") {
+						m.byDir[dir] = append(m.byDir[dir], filepath.Join(dir, n))
+					}
+				}
+			}
+			return m.check(dir, path)
+		}
+		return nil, fmt.Errorf("module of %s not found in the module cache", path)
+	}
+	return m.std.Import(path)
+}
+
+func escapeModPath(p string) string {
+	var b strings.Builder
+	for _, r := range p {
+		if r >= 'A' && r <= 'Z' {
+			b.WriteByte('!')
+			b.WriteRune(r + 'a' - 'A')
+		} else {
+			b.WriteRune(r)
+		}
+	}
+	return b.String()
+}
+
+// moduleDir maps an import path to its directory in the module cache using the versions
+// required in the scratch copy's go.mod.
+func (m *modImporter) moduleDir(path string) string {
+	cache := os.Getenv("GOMODCACHE")
+	if cache == "" {
+		gp := os.Getenv("GOPATH")
+		if gp == "" {
+			home, _ := os.UserHomeDir()
+			gp = filepath.Join(home, "go")
+		}
+		cache = filepath.Join(strings.Split(gp, string(os.PathListSeparator))[0], "pkg", "mod")
+	}
+	best, bestVer := "", ""
+	for mod, ver := range m.requires {
+		if (path == mod || strings.HasPrefix(path, mod+"/")) && len(mod) > len(best) {
+			best, bestVer = mod, ver
+		}
+	}
+	if best == "" {
+		return ""
+	}
+	dir := filepath.Join(cache, escapeModPath(best)+"@"+bestVer, strings.TrimPrefix(strings.TrimPrefix(path, best), "/"))
+	if st, err := os.Stat(dir); err != nil || !st.IsDir() {
+		return ""
+	}
+	return dir
+}
+
+func (m *modImporter) check(dir, path string) (*types.Package, error) {
+	if p, ok := m.done[dir]; ok {
+		if p == nil {
+			return nil, fmt.Errorf("import cycle or failed package %s", path)
+		}
+		return p, nil
+	}
+	m.done[dir] = nil
+	var parsed []*ast.File
+	for _, f := range m.byDir[dir] {
+		af, err := parser.ParseFile(m.fset, f, nil, 0)
+		if err != nil {
+			return nil, err
+		}
+		parsed = append(parsed, af)
+	}
+	if len(parsed) == 0 {
+		return nil, fmt.Errorf("no source files for %s", path)
+	}
+	info := &types.Info{Types: map[ast.Expr]types.TypeAndValue{}}
+	conf := types.Config{Importer: m, Error: func(error) { m.errs++ }}
+	pkg, _ := conf.Check(path, m.fset, parsed, info)
+	for _, af := range parsed {
+		fname := m.fset.Position(af.Pos()).Filename
+		tf := m.fset.File(af.Pos())
+		ast.Inspect(af, func(n ast.Node) bool {
+			if rs, ok := n.(*ast.RangeStmt); ok {
+				if tv, ok := info.Types[rs.X]; ok && tv.Type != nil {
+					if _, isMap := tv.Type.Underlying().(*types.Map); isMap {
+						if mapRangeAt[fname] == nil {
+							mapRangeAt[fname] = map[int]bool{}
+						}
+						mapRangeAt[fname][tf.Offset(rs.X.Pos())] = true
+					}
+				}
+			}
+			return true
+		})
+	}
+	m.done[dir] = pkg
+	if pkg == nil {
+		return nil, fmt.Errorf("type check of %s failed", path)
+	}
+	return pkg, nil
+}
+
+// findMapRanges type-checks the module's packages (standard library from source) and records
+// which range statements iterate over maps.  Packages without any range statement are not
+// checked.  A type-check problem is not fatal: the affected ranges stay as they are and the
+// note says so (the determinism self-test and the replay confirmation still guard the result).
+func findMapRanges(root string, files []string) {
+	byDir := map[string][]string{}
+	hasRange := map[string]bool{}
+	for _, f := range files {
+		d := filepath.Dir(f)
+		byDir[d] = append(byDir[d], f)
+		if b, err := os.ReadFile(f); err == nil && strings.Contains(string(b), "range") {
+			hasRange[d] = true
+		}
+	}
+	if len(hasRange) == 0 {
+		return
+	}
+	modPath := ""
+	requires := map[string]string{}
+	if b, err := os.ReadFile(filepath.Join(root, "go.mod")); err == nil {
+		for _, l := range strings.Split(string(b), "\n") {
+			l = strings.TrimSpace(l)
+			if strings.HasPrefix(l, "module ") {
+				modPath = strings.TrimSpace(strings.TrimPrefix(l, "module "))
+			}
+			l = strings.TrimPrefix(l, "require ")
+			if f := strings.Fields(l); len(f) >= 2 && strings.Contains(f[0], ".") && strings.HasPrefix(f[1], "v") {
+				requires[f[0]] = f[1]
+			}
+		}
+	}
+	if modPath == "" {
+		typeCheckNote = "go.mod unreadable: map ranges left to the runtime"
+		return
+	}
+	fset := token.NewFileSet()
+	m := &modImporter{fset: fset, std: importer.ForCompiler(fset, "source", nil), modPath: modPath, root: root, byDir: byDir, done: map[string]*types.Package{}, requires: requires}
+	var dirs []string
+	for d := range hasRange {
+		dirs = append(dirs, d)
+	}
+	sort.Strings(dirs)
+	failed := 0
+	for _, d := range dirs {
+		rel, _ := filepath.Rel(root, d)
+		path := modPath
+		if rel != "." {
+			path = modPath + "/" + filepath.ToSlash(rel)
+		}
+		if _, err := m.check(d, path); err != nil {
+			failed++
+		}
+	}
+	typeCheckNote = fmt.Sprintf("%d packages type-checked, %d type errors, %d failed", len(dirs), m.errs, failed)
 }
